@@ -291,17 +291,12 @@ def main(tier: str, seed: int) -> int:
         scenarios.append({"scn": random_scenario(rng, kw["ttl"] != NOTTL, rng.randint(6, 16)), "kw": kw,
                           "fin": None, "src": "random"})
 
-    # replay on the real code
-    by_kw: dict[str, list[int]] = {}
-    for i, s in enumerate(scenarios):
-        by_kw.setdefault(json.dumps(s["kw"], sort_keys=True), []).append(i)
-    results: list[Any] = [None] * len(scenarios)
-    procs = _procs()
-    for kwj, idxs in by_kw.items():
-        res = rp.pmap("harness.c20_run", "run_scenario", [scenarios[i]["scn"] for i in idxs], procs=procs,
-                      chunk=100, **json.loads(kwj))
-        for i, r in zip(idxs, res):
-            results[i] = r
+    # replay on the real code (the parsed TLC output is dropped first: the workers are forked)
+    del jobs, futs
+    import gc
+    gc.collect()
+    results = rp.pmap("harness.c20_run", "run_item", [{"scn": s["scn"], "kw": s["kw"]} for s in scenarios],
+                      procs=_procs(), chunk=100)
     phase("replay")
     traces = []
     for i, r in enumerate(results):
